@@ -607,8 +607,8 @@ def check_seed(case):
         if how == "default":
             f.expect(ok, "seed/default-passphrase-ne-empty", f"{got!r}")
         else:
-            shown = bytes(got).hex()[:32] + ".." if _is_bytes(got) else repr(got)[:80]
-            f.expect(ok, f"seed/ne-reference/{sub}", f"m={m[:60]!r} p={p[:40]!r}: got {shown} want {want.hex()[:32]}..")
+            shown = f"{len(got)} bytes {bytes(got).hex()[:32]}.." if _is_bytes(got) else repr(got)[:80]
+            f.expect(ok, f"seed/ne-reference/{sub}", f"m={m[:60]!r} p={p[:40]!r}: got {shown} want 64 bytes {want.hex()[:32]}..")
     return cls, f
 
 
